@@ -59,8 +59,11 @@ class Pipeline:
                       f"the {attr} loop does not stop compilation (return None) when a pass reports failure", COMPILER, c)
         rp = self.runpass
         good = False
+        from .sem import local_env, rtext
+
+        rp_env = local_env(rp, allow_impure=True)
         for n in ast.walk(rp):
-            if isinstance(n, ast.If) and "Process" in unparse(n.test) and isinstance(n.test, ast.UnaryOp):
+            if isinstance(n, ast.If) and "Process" in rtext(n.test, rp_env) and isinstance(n.test, ast.UnaryOp):
                 if any(isinstance(s, ast.Return) and isinstance(s.value, ast.Constant) and s.value.value is False for s in n.body):
                     good = True
         last = rp.body[-1]
